@@ -133,7 +133,8 @@ func crashExcerpt(se string) string {
 //   - an unrecovered "panic:" whose goroutine dump has a frame under repoDir
 //     (frames of the injected scheduler, repoDir/vsched/, do not count).
 //
-// Everything else (killed on timeout, out of memory, a panic only in harness frames) returns ""
+// Everything else (killed on timeout, out of memory, a panic only in harness frames, a crash inside a thread
+// that the scheduler is unwinding at the end of an execution) returns ""
 // and stays "incomplete": it says nothing about the property.
 func CrashClass(stderr, repoDir string) string {
 	first := ""
@@ -145,6 +146,18 @@ func CrashClass(stderr, repoDir string) string {
 	}
 	if first == "" {
 		return ""
+	}
+	// the crashing goroutine is the first one of the dump: when it is a managed thread being UNWOUND at the end of
+	// an execution (runtime.Goexit from the scheduler's park, deferred unlocks running while the other threads are
+	// unwound at the same time), the crash is an artefact of the teardown, not of the schedule explored
+	if i := strings.Index(stderr, "\ngoroutine "); i >= 0 {
+		blk := stderr[i+1:]
+		if j := strings.Index(blk, "\n\n"); j >= 0 {
+			blk = blk[:j]
+		}
+		if strings.Contains(blk, "runtime.Goexit") && strings.Contains(blk, "vsched.(*exec).park") {
+			return ""
+		}
 	}
 	inRepo := false
 	for _, l := range strings.Split(stderr, "\n") {
